@@ -1,13 +1,20 @@
 (* C05 — set operations over k sorted streams match set theory.
-   Statements only; proofs live in proofs/OpsProofs.v.
+   Statements only; proofs live in proofs/OpsProofs.v and proofs/OpsPolls.v.
 
-   Vocabulary (FstV.Ops): a stream is the list of (key, value) items it will yield;
+   Vocabulary (FstV.Ops): an input [instream] is a caller-supplied Streamer, which need not be
+   "fused": [s_items] is what it yields before its first None, [s_after n] what it answers to the
+   n-th poll made after that None (anything; [inert] = None for ever).  The [run_..._on] functions
+   take such streams and return the items emitted together with, per stream, the pair
+   (polls made, polls made after its None); [run_union] etc. are the same runs over inert
+   streams given as lists.  [full_polls x] = (length (s_items x) + 1, 0);
+   [polls_ok x (p, a)] = p <= length (s_items x) + 1 and a = 0.
+   A stream given as a list is the list of (key, value) items it will yield;
    [streams_ok ss] = every stream has strictly increasing keys; [admissible pop_min] = the heap's
    pop returns a least (input, output) slot and leaves the rest (any tie-break);
    a run returns [Some (Ok out)] (finished), [Some Panic] (Rust panic) or [None] (the model's
    fuel ran out);  [out_eqv a b] = same keys in the same order and, per key, the same
-   (stream index, value) entries up to order. *)
-Require Import FstV.Base FstV.Ops FstV.proofs.OpsProofs.
+   (instream index, value) entries up to order. *)
+Require Import FstV.Base FstV.Ops FstV.proofs.OpsProofs FstV.proofs.OpsPolls.
 From Coq Require Import Permutation.
 
 (* ---------- the four operations: for any number of streams and every admissible heap ---------- *)
@@ -112,6 +119,98 @@ Proof.
   - exact (is_superset_correct pop_min Ha _ s0 s1 H0 H1 eq_refl).
 Qed.
 
+(* ---------- the polling discipline: input streams that are not inert after their None ---------- *)
+(* (a) no stream is ever polled again after it has returned None.  Union, intersection and
+   symmetric difference read every stream to its end: one poll per item and one for the None.
+   Difference reads its first stream to the end and the others (in the order swap_remove(0) leaves
+   them in) only as far as needed; is_disjoint stops at the first common key. *)
+Theorem C05_no_poll_after_none : forall pop_min X, admissible pop_min -> streams_ok (map s_items X) ->
+  (exists out, run_union_on pop_min X = Some (Ok (out, map full_polls X))) /\
+  (exists out, run_sel_on pop_min OpInter X = Some (Ok (out, map full_polls X))) /\
+  (exists out, run_sel_on pop_min OpSymdiff X = Some (Ok (out, map full_polls X))) /\
+  (forall x0 rest, X = x0 :: rest -> exists out rest' polls,
+     run_difference_on pop_min X = Some (Ok (out, full_polls x0 :: polls)) /\
+     swap_remove0 X = Some (x0, rest') /\ Permutation rest rest' /\ Forall2 polls_ok rest' polls) /\
+  (forall x0 x1, X = [x0; x1] ->
+     (exists b polls, is_disjoint_on pop_min x0 x1 = Some (Ok (b, polls)) /\ Forall2 polls_ok X polls) /\
+     (exists b, is_subset_on pop_min (N.of_nat (length (s_items x0))) x0 x1 = Some (Ok (b, map full_polls X))) /\
+     (exists b, is_superset_on pop_min (N.of_nat (length (s_items x0))) x0 x1 = Some (Ok (b, map full_polls X)))).
+Proof.
+  intros pop_min X Ha Hs. split; [|split; [|split; [|split]]].
+  - destruct (run_union_on_correct pop_min Ha X Hs) as (o & H & _). eauto.
+  - destruct (run_sel_on_correct pop_min Ha OpInter X Hs) as (o & H & _). eauto.
+  - destruct (run_sel_on_correct pop_min Ha OpSymdiff X Hs) as (o & H & _). eauto.
+  - intros x0 rest ->. destruct (run_difference_on_correct pop_min Ha x0 rest Hs) as (r' & p & H). eauto.
+  - intros x0 x1 ->. inversion Hs as [|? ? H0 Hs']; subst. inversion Hs' as [|? ? H1 _]; subst. split; [|split].
+    + destruct (is_disjoint_on_correct pop_min Ha x0 x1 H0 H1) as (p & H & Hp). eauto.
+    + eexists. exact (is_subset_on_correct pop_min Ha _ x0 x1 H0 H1 eq_refl).
+    + eexists. exact (is_superset_on_correct pop_min Ha _ x0 x1 H0 H1 eq_refl).
+Qed.
+
+(* equivalently: what the streams would answer after their None has no influence on a run at
+   all - not on the items, not on their order, not on the polls *)
+Theorem C05_after_irrelevant : forall pop_min X X', admissible pop_min ->
+  streams_ok (map s_items X) -> map s_items X = map s_items X' ->
+  run_union_on pop_min X = run_union_on pop_min X' /\
+  run_sel_on pop_min OpInter X = run_sel_on pop_min OpInter X' /\
+  run_sel_on pop_min OpSymdiff X = run_sel_on pop_min OpSymdiff X' /\
+  run_difference_on pop_min X = run_difference_on pop_min X' /\
+  (forall x0 x1 x0' x1' n, X = [x0; x1] -> X' = [x0'; x1'] -> n = N.of_nat (length (s_items x0)) ->
+     is_disjoint_on pop_min x0 x1 = is_disjoint_on pop_min x0' x1' /\
+     is_subset_on pop_min n x0 x1 = is_subset_on pop_min n x0' x1' /\
+     is_superset_on pop_min n x0 x1 = is_superset_on pop_min n x0' x1').
+Proof.
+  intros pop_min X X' Ha Hs He. split; [|split; [|split; [|split]]].
+  - exact (union_after_irrelevant pop_min Ha X X' Hs He).
+  - exact (sel_after_irrelevant pop_min Ha OpInter X X' Hs He).
+  - exact (sel_after_irrelevant pop_min Ha OpSymdiff X X' Hs He).
+  - exact (difference_after_irrelevant pop_min Ha X X' Hs He).
+  - intros x0 x1 x0' x1' n -> -> Hn. inversion Hs as [|? ? H0 Hs']; subst. inversion Hs' as [|? ? H1 _]; subst.
+    cbn [map] in He. inversion He. apply (predicates_after_irrelevant pop_min Ha); auto.
+Qed.
+
+(* (b) the correctness theorems for arbitrary, non-inert streams: the result is the set-theoretic
+   combination of the items every stream yielded BEFORE its first None *)
+Theorem C05_union_any_streams : forall pop_min X, admissible pop_min -> streams_ok (map s_items X) ->
+  exists out, run_union_on pop_min X = Some (Ok (out, map full_polls X)) /\
+              out_eqv out (spec_union (map s_items X)).
+Proof. intros pop_min X Ha Hs. exact (run_union_on_correct pop_min Ha X Hs). Qed.
+Theorem C05_intersection_any_streams : forall pop_min X, admissible pop_min -> streams_ok (map s_items X) ->
+  exists out, run_sel_on pop_min OpInter X = Some (Ok (out, map full_polls X)) /\
+              out_eqv out (spec_intersection (map s_items X)).
+Proof. intros pop_min X Ha Hs. exact (run_sel_on_correct pop_min Ha OpInter X Hs). Qed.
+Theorem C05_symmetric_difference_any_streams : forall pop_min X, admissible pop_min -> streams_ok (map s_items X) ->
+  exists out, run_sel_on pop_min OpSymdiff X = Some (Ok (out, map full_polls X)) /\
+              out_eqv out (spec_symdiff (map s_items X)).
+Proof. intros pop_min X Ha Hs. exact (run_sel_on_correct pop_min Ha OpSymdiff X Hs). Qed.
+Theorem C05_difference_any_streams : forall pop_min x0 rest, admissible pop_min -> streams_ok (map s_items (x0 :: rest)) ->
+  exists rest' polls,
+    run_difference_on pop_min (x0 :: rest)
+      = Some (Ok (spec_difference (map s_items (x0 :: rest)), full_polls x0 :: polls)) /\
+    swap_remove0 (x0 :: rest) = Some (x0, rest') /\ Permutation rest rest' /\ Forall2 polls_ok rest' polls.
+Proof. intros pop_min x0 rest Ha Hs. exact (run_difference_on_correct pop_min Ha x0 rest Hs). Qed.
+Theorem C05_predicates_any_streams : forall pop_min (x0 x1 : instream), admissible pop_min ->
+  kmap_ok (s_items x0) = true -> kmap_ok (s_items x1) = true ->
+  (exists polls, is_disjoint_on pop_min x0 x1 = Some (Ok (spec_disjoint (s_items x0) (s_items x1), polls)) /\
+                 Forall2 polls_ok [x0; x1] polls) /\
+  is_subset_on pop_min (N.of_nat (length (s_items x0))) x0 x1
+    = Some (Ok (spec_subset (s_items x0) (s_items x1), [full_polls x0; full_polls x1])) /\
+  is_superset_on pop_min (N.of_nat (length (s_items x0))) x0 x1
+    = Some (Ok (spec_superset (s_items x0) (s_items x1), [full_polls x0; full_polls x1])).
+Proof.
+  intros pop_min x0 x1 Ha H0 H1. repeat split.
+  - exact (is_disjoint_on_correct pop_min Ha x0 x1 H0 H1).
+  - exact (is_subset_on_correct pop_min Ha _ x0 x1 H0 H1 eq_refl).
+  - exact (is_superset_on_correct pop_min Ha _ x0 x1 H0 H1 eq_refl).
+Qed.
+(* the list-based runs of the theorems above are these runs over inert streams *)
+Theorem C05_list_runs : forall pop_min ss,
+  run_union pop_min ss = (fdo q <- run_union_on pop_min (map inert ss); fret (fst q)) /\
+  run_intersection pop_min ss = (fdo q <- run_sel_on pop_min OpInter (map inert ss); fret (fst q)) /\
+  run_symdiff pop_min ss = (fdo q <- run_sel_on pop_min OpSymdiff (map inert ss); fret (fst q)) /\
+  run_difference pop_min ss = (fdo q <- run_difference_on pop_min (map inert ss); fret (fst q)).
+Proof. intros; repeat split. Qed.
+
 (* ---------- the hypothesis on the heap is satisfiable: two different tie-breaks ---------- *)
 Theorem C05_heaps_exist : admissible pop_min_left /\ admissible pop_min_right.
 Proof. split; [exact pop_min_left_admissible|exact pop_min_right_admissible]. Qed.
@@ -134,6 +233,68 @@ Example C05_nonvacuous :
   run_difference pop_min_left ss = Some (Ok [([], [ent 0 1])]).
 Proof. cbv zeta. split; [repeat constructor|]. vm_compute. repeat split. Qed.
 
+(* (c) non-vacuity of the polling discipline: the same streams, but every one of them yields the
+   key FF FE FD FC (value 57005) when it is polled again after its None.  No run picks it up, and
+   the per-stream (polls, polls after None) are (items + 1, 0) - fewer polls where a run stops
+   early (difference: the streams other than the first; is_disjoint). *)
+Example C05_poison_not_picked_up :
+  let a := [97] in let ab := [97; 98] in let b := [98] in
+  let ss := [[([], 1); (a, 5); (ab, 2)]; [(a, 5); (b, 7)]; []; [(a, 3); (ab, 2); (b, 7)]] in
+  let X := map poisoned ss in
+  let pl := [(4, 0); (3, 0); (1, 0); (4, 0)]%nat in
+  run_union_on pop_min_left X
+    = Some (Ok ([([], [ent 0 1]); (a, [ent 3 3; ent 0 5; ent 1 5]); (ab, [ent 3 2; ent 0 2]); (b, [ent 3 7; ent 1 7])], pl)) /\
+  run_union_on pop_min_right X
+    = Some (Ok ([([], [ent 0 1]); (a, [ent 3 3; ent 1 5; ent 0 5]); (ab, [ent 0 2; ent 3 2]); (b, [ent 1 7; ent 3 7])], pl)) /\
+  run_sel_on pop_min_left OpInter (map poisoned [[(a, 1); (b, 2)]; [(a, 4)]])
+    = Some (Ok ([(a, [ent 0 1; ent 1 4])], [(3, 0); (2, 0)]%nat)) /\
+  run_sel_on pop_min_left OpSymdiff X
+    = Some (Ok ([([], [ent 0 1]); (a, [ent 3 3; ent 0 5; ent 1 5])], pl)) /\
+  run_difference_on pop_min_left X
+    = Some (Ok ([([], [ent 0 1])], [(4, 0); (3, 0); (2, 0); (1, 0)]%nat)) /\
+  is_disjoint_on pop_min_left (poisoned [(a, 1); (b, 2)]) (poisoned [(ab, 1); (b, 2)])
+    = Some (Ok (false, [(3, 0); (2, 0)]%nat)) /\
+  is_subset_on pop_min_left 1 (poisoned [(a, 1)]) (poisoned [(a, 4); (b, 2)])
+    = Some (Ok (true, [(2, 0); (3, 0)]%nat)) /\
+  is_superset_on pop_min_left 2 (poisoned [(a, 4); (b, 2)]) (poisoned [(a, 1)])
+    = Some (Ok (true, [(3, 0); (2, 0)]%nat)).
+Proof. cbv zeta. vm_compute. repeat split. Qed.
+
+(* ... and the statement can fail.  A hand-made variant of Union that fills the heap lazily,
+   whenever it finds it empty (the seeded regression C05-4): over inert streams it emits the
+   right items, so no list-based statement sees a difference; over the poisoned streams it polls
+   both streams again after their None (last components 3, 3) and emits the poison key. *)
+Definition prime (u : sheap) : res sheap :=
+  match heap u with [] => refill_all u 0 (length (rdrs u)) | _ :: _ => Ok u end.
+Definition union_next_lazy pop_min (st : opstate) : fres (option item * opstate) :=
+  fdo u <- lift (refill_cur st); fdo u' <- lift (prime u); union_next pop_min (mkop u' (o_outs st) None).
+Definition run_union_lazy pop_min (X : list instream) (n : nat) : fres (list item * list (nat * nat)) :=
+  fdo q <- collect (union_next_lazy pop_min) n (mkop (mksheap (map open X) []) [] None);
+  fret (fst q, op_polls (snd q)).
+Example C05_repolling_variant_picks_up_poison :
+  let a := [97] in let b := [98] in
+  let ss := [[(a, 1)]; [(a, 2); (b, 2)]] in
+  let good := [(a, [ent 0 1; ent 1 2]); (b, [ent 1 2])] in
+  run_union_on pop_min_left (map poisoned ss) = Some (Ok (good, [(2, 0); (3, 0)]%nat)) /\
+  run_union_lazy pop_min_left (map inert ss) 10 = Some (Ok (good, [(3, 1); (4, 1)]%nat)) /\
+  run_union_lazy pop_min_left (map poisoned ss) 10
+    = Some (Ok (good ++ [(fst poison_kv, [ent 1 57005; ent 0 57005])], [(5, 3); (6, 3)]%nat)).
+Proof. cbv zeta. vm_compute. repeat split. Qed.
+
+Check C05_no_poll_after_none : forall pop_min X, admissible pop_min -> streams_ok (map s_items X) ->
+  (exists out, run_union_on pop_min X = Some (Ok (out, map full_polls X))) /\
+  (exists out, run_sel_on pop_min OpInter X = Some (Ok (out, map full_polls X))) /\
+  (exists out, run_sel_on pop_min OpSymdiff X = Some (Ok (out, map full_polls X))) /\
+  (forall x0 rest, X = x0 :: rest -> exists out rest' polls,
+     run_difference_on pop_min X = Some (Ok (out, full_polls x0 :: polls)) /\
+     swap_remove0 X = Some (x0, rest') /\ Permutation rest rest' /\ Forall2 polls_ok rest' polls) /\
+  (forall x0 x1, X = [x0; x1] ->
+     (exists b polls, is_disjoint_on pop_min x0 x1 = Some (Ok (b, polls)) /\ Forall2 polls_ok X polls) /\
+     (exists b, is_subset_on pop_min (N.of_nat (length (s_items x0))) x0 x1 = Some (Ok (b, map full_polls X))) /\
+     (exists b, is_superset_on pop_min (N.of_nat (length (s_items x0))) x0 x1 = Some (Ok (b, map full_polls X)))).
+Check C05_union_any_streams : forall pop_min X, admissible pop_min -> streams_ok (map s_items X) ->
+  exists out, run_union_on pop_min X = Some (Ok (out, map full_polls X)) /\
+              out_eqv out (spec_union (map s_items X)).
 Check C05_union : forall pop_min ss, admissible pop_min -> streams_ok ss ->
   exists out, run_union pop_min ss = Some (Ok out) /\ out_eqv out (spec_union ss).
 Check C05_intersection : forall pop_min ss, admissible pop_min -> streams_ok ss ->
@@ -157,4 +318,14 @@ Print Assumptions C05_is_subset.
 Print Assumptions C05_is_superset.
 Print Assumptions C05_predicates_computed.
 Print Assumptions C05_heaps_exist.
+Print Assumptions C05_no_poll_after_none.
+Print Assumptions C05_after_irrelevant.
+Print Assumptions C05_union_any_streams.
+Print Assumptions C05_intersection_any_streams.
+Print Assumptions C05_symmetric_difference_any_streams.
+Print Assumptions C05_difference_any_streams.
+Print Assumptions C05_predicates_any_streams.
+Print Assumptions C05_list_runs.
+Print Assumptions C05_poison_not_picked_up.
+Print Assumptions C05_repolling_variant_picks_up_poison.
 Print Assumptions C05_nonvacuous.
